@@ -27,7 +27,7 @@ import (
 )
 
 type PoolOp struct {
-	Op   string `json:"op"`             // acq | fill | rel
+	Op   string `json:"op"`             // acq | fill | rel | clear (the holder calls Clear itself) | fault
 	Type string `json:"type,omitempty"` // acq: pack type
 	Ver  int32  `json:"ver,omitempty"`  // acq: requested version
 	Slot int    `json:"slot,omitempty"` // fill, rel: index into the packs currently held (modulo their number)
@@ -75,6 +75,9 @@ func drawPool(t *rapid.T) PoolCase {
 			// a truncated datagram arrives: ToPack acquires a pack, reads part of it and fails
 			c.Ops = append(c.Ops, PoolOp{Op: "fault", Type: rapid.SampledFrom(types).Draw(t, "t"), Ver: drawVersion(t),
 				Seed: rapid.IntRange(1, 255).Draw(t, "seed"), B: rapid.Bool().Draw(t, "b"), Cut: rapid.IntRange(0, 5000).Draw(t, "cut")})
+		case k >= 84:
+			// the holder re-uses its pack for a second message: it clears the pack itself (and will usually fill it again)
+			c.Ops = append(c.Ops, PoolOp{Op: "clear", Slot: rapid.IntRange(0, len(held)-1).Draw(t, "slot")})
 		case k < 67:
 			c.Ops = append(c.Ops, PoolOp{Op: "fill", Slot: rapid.IntRange(0, len(held)-1).Draw(t, "slot"),
 				Seed: rapid.IntRange(1, 255).Draw(t, "seed"), B: rapid.Bool().Draw(t, "b")})
@@ -323,6 +326,14 @@ func runPool(c PoolCase) *pbt.Result {
 			h := held[op.Slot%len(held)]
 			fillPoison(h.p, op.Seed, op.B, ptrs)
 			h.filled, h.b = true, op.B
+		case "clear":
+			if len(held) == 0 {
+				continue
+			}
+			h := held[op.Slot%len(held)]
+			h.p.Clear()
+			h.filled = false
+			classes["cleared-by-holder"] = true
 		case "rel":
 			if len(held) == 0 {
 				continue
@@ -421,7 +432,7 @@ func b2i(b bool) int {
 
 var poolSpec = pbt.Register(pbt.Spec[PoolCase]{
 	Prop: "C07", Name: "pool",
-	Rule:  "histories of 3..40 acquire(type, version) / fill(poison in every exported field incl. maps, slices, pointers) / release / failed decode (ToPack of a poisoned datagram cut at a generated offset, panic recovered) over 1..3 of the 18 pooled types, run on a single P; after every acquire no field may contain poison (bool fields: value after re-acquisition must not follow the value stored before release); non-trivial = sync.Pool really handed back an object that had been poisoned and released earlier in the same history, or an acquire followed a failed decode; distinct by history",
+	Rule:  "histories of 3..40 acquire(type, version) / fill(poison in every exported field incl. maps, slices, pointers) / release / clear by the holder itself (the pack is re-used for a second message, usually filled again) / failed decode (ToPack of a poisoned datagram cut at a generated offset, panic recovered) over 1..3 of the 18 pooled types, run on a single P; after every acquire no field may contain poison (bool fields: value after re-acquisition must not follow the value stored before release); non-trivial = sync.Pool really handed back an object that had been poisoned and released earlier in the same history, or an acquire followed a failed decode; distinct by history",
 	Quick: 3000, Thorough: 20000,
 	Draw: drawPool, Run: runPool,
 })
